@@ -90,5 +90,6 @@ package search
 //@   requires fb != nil && facetBuilder != nil && implies(fb.facetsByField != nil && in(fb.facetsByField, fieldOf(facetBuilder)), cap(fb.facetsByField[fieldOf(facetBuilder)]) == 0 || cap(fb.facets) == 0 || base(fb.facetsByField[fieldOf(facetBuilder)]) != base(fb.facets)) && (cap(fb.fields) == 0 || cap(fb.facetNames) == 0 || base(fb.fields) != base(fb.facetNames))
 //@   modifies fb.facetsByField, map(fb.facetsByField), fb.facetNames, fb.facetNames[*], fb.facets, fb.facets[*], fb.fields, fb.fields[*], mem(FacetBuilder)
 //@   ensures len(fb.facets) == old(len(fb.facets)) + 1 && fb.facets[len(fb.facets)-1] == facetBuilder && len(fb.facetNames) == old(len(fb.facetNames)) + 1 && fb.facetNames[len(fb.facetNames)-1] == name
-//@   ensures len(fb.fields) == old(len(fb.fields)) + 1 && fb.fields[len(fb.fields)-1] == fieldOf(facetBuilder)
+// its field is among the required fields, and no required field is lost
+//@   ensures len(fb.fields) >= old(len(fb.fields)) && forall(k, 0, old(len(fb.fields)), fb.fields[k] == old(fb.fields[k])) && exists(k, 0, len(fb.fields), fb.fields[k] == fieldOf(facetBuilder), len(fb.fields)-1)
 //@   ensures in(fb.facetsByField, fieldOf(facetBuilder)) && len(fb.facetsByField[fieldOf(facetBuilder)]) > 0 && fb.facetsByField[fieldOf(facetBuilder)][len(fb.facetsByField[fieldOf(facetBuilder)])-1] == facetBuilder
